@@ -294,6 +294,20 @@ func compareFraming(lib []*diam.AVP, ref []refTree, path string) string {
 	return ""
 }
 
+// deepChain: a grouped AVP nested depth levels; the innermost level holds a
+// record whose declared length is good or bad.
+func deepChain(code uint32, depth int, leaf []byte) []byte {
+	body := leaf
+	for d := 0; d < depth; d++ {
+		b := append(rawHeader(code, 0x40, 0, 8+len(body)), body...)
+		for len(b)%4 != 0 {
+			b = append(b, 0)
+		}
+		body = b
+	}
+	return body
+}
+
 func TestC04(t *testing.T) {
 	rec := ev.Open(t, "C04")
 	refcodecSelfCheck(t)
@@ -304,6 +318,51 @@ func TestC04(t *testing.T) {
 	if rec.Race() {
 		n = rec.N(4000, 100000)
 	}
+	// nesting up to 100 levels (the decoder accepts 128): framing must hold at the bottom as well
+	rec.Suite("deep-chains", rec.N(400, 20000), func(c *ev.Case) {
+		ctx := ctxs[0]
+		depth := 6 + c.R.IntN(95)
+		kind := c.R.IntN(4)
+		var leaf []byte
+		switch kind {
+		case 0: // well-framed leaf: Unsigned32 code with a 9-byte payload followed by a sibling
+			leaf = append(rawHeader(9009, 0x40, 0, 17), fillerImage(c, 9)...)
+			leaf = append(leaf, 0, 0, 0)
+			leaf = append(leaf, rawHeader(9001, 0x40, 0, 8)...)
+		case 1: // declared length beyond the innermost container
+			leaf = append(rawHeader(9001, 0x40, 0, 40), fillerImage(c, 12)...)
+		case 2: // declared length shorter than the header
+			leaf = append(rawHeader(9001, 0x40, 0, 5), fillerImage(c, 8)...)
+		default: // trailing bytes that are not an AVP
+			leaf = append(rawHeader(9009, 0x40, 0, 12), 1, 2, 3, 4, 9, 9, 9)
+		}
+		body := deepChain(9018, depth, leaf)
+		h := refcodec.Header{Version: 1, Flags: 0x80, Code: 8388000, HopByHop: 1, EndToEnd: 1, Length: uint32(20 + len(body))}
+		wire := append(refcodec.EncodeHeader(h), body...)
+		var facts refFacts
+		ref, rerr := frameTree(body, ctx.TypeFunc(0), &facts)
+		c.Class("deep/depth=%d/leaf=%d/framed=%v", depth/20*20, kind, rerr == nil)
+		var m *diam.Message
+		var err error
+		if p, bad := guard(func() { m, err = diam.ReadMessage(bytes.NewReader(wire), ctx.Parser) }); bad {
+			c.Fail(ev.Sig{"op": "panic", "site": panicSite(p)}, wire, nil, "ReadMessage panicked: %s", p)
+			return
+		}
+		switch {
+		case rerr != nil && err == nil:
+			c.Fail(ev.Sig{"op": "accepted-misframed", "depth": "deep"}, wire, nil, "mis-framed %d levels down (%v) but accepted", depth, rerr)
+		case rerr == nil && err != nil && !facts.missingPad:
+			c.Fail(ev.Sig{"op": "rejected-wellframed", "depth": "deep"}, wire, nil, "well-framed chain of %d levels rejected: %v", depth, err)
+		case rerr == nil && err == nil:
+			if d := compareFraming(m.AVP, ref, ""); d != "" && !facts.missingPad {
+				c.Fail(ev.Sig{"op": "framing-differs", "depth": "deep"}, wire, nil, "%d levels down: %s", depth, d)
+				return
+			}
+			c.Event("deep_chains_equal", 1)
+		default:
+			c.Event("ref_misframed", 1)
+		}
+	})
 	rec.Suite("bodies", n, func(c *ev.Case) {
 		ctx := ctxs[c.I%2]
 		r := c.R
